@@ -516,7 +516,12 @@ func decode(i int, ms schema.ModelSet, b []byte, validate bool) (d *D, err error
 	if !validate {
 		vt = schema.DontValidate
 	}
-	n, e := encoding.NewUnmarshaller(encTypes[i]).SetValidation(vt).Unmarshal(ms, b)
+	um := encoding.NewUnmarshaller(encTypes[i])
+	if !validate || len(b)%2 == 0 {
+		um = um.SetValidation(vt)
+	}
+	// (else: a decoder as NewUnmarshaller hands it out validates, whatever earlier decoders were told)
+	n, e := um.Unmarshal(ms, b)
 	if e != nil {
 		return nil, e, nil
 	}
